@@ -447,3 +447,34 @@ def selftest_binding(ctx, module, cfg, trace, corrupt, expect_prefix, name):
   if not rejected:
     raise MachineryError('binding self-test %s: corrupted trace was NOT rejected' % name)
   return rejected
+
+
+# ----------------------------------------------------------------------------
+# behaviours of the repository's own test suite (pytest plugin harness/verif_trace_plugin.py)
+# ----------------------------------------------------------------------------
+SUITE_FILES = ['test/test_mahalanobis_mixin.py', 'test/test_pairs_classifiers.py', 'test/test_fit_transform.py',
+               'test/test_triplets_classifiers.py', 'test/test_quadruplets_classifiers.py']
+
+
+def record_suite_calls(workdir, files=None, maxcalls=4000, timeout=1800):
+  """run (part of) the repository's test suite with the tracing plugin; returns the recorded call events (raw floats)"""
+  out = os.path.join(workdir, 'suite_calls')
+  for f in os.listdir(workdir) if os.path.isdir(workdir) else []:
+    if f.startswith('suite_calls.'):
+      os.unlink(os.path.join(workdir, f))
+  os.makedirs(workdir, exist_ok=True)
+  env = dict(os.environ, VERIF_TRACE_OUT=out, VERIF_TRACE_MAXCALLS=str(maxcalls),
+             PYTHONPATH=REPO + ':' + os.path.join(VERIF, 'harness'), OMP_NUM_THREADS='1')
+  cmd = ['/venv/bin/python', '-m', 'pytest', '-q', '-p', 'no:cacheprovider', '-p', 'verif_trace_plugin', '-n', str(min(8, NCPU)),
+         '--timeout=600'] + (files or SUITE_FILES)
+  p = subprocess.run(cmd, cwd=REPO, env=env, capture_output=True, text=True, timeout=timeout)
+  events = []
+  for f in sorted(os.listdir(workdir)):
+    if f.startswith('suite_calls.'):
+      for line in open(os.path.join(workdir, f)):
+        try:
+          events.append(json.loads(line))
+        except ValueError:
+          pass
+  summary = (p.stdout.strip().splitlines() or [''])[-1]
+  return events, summary
